@@ -313,7 +313,7 @@ def run(ctx):
                       "rates below about 2^-24 the weight is no longer floor(1/rate) or ceil(1/rate)" % "; ".join(m for _, m in bad[:4]),
                       "data slice of the multiplicity through %s: %d arithmetic/cast steps, none on f32 values" % (sorted(x.split("::")[-1] for x in visited), stats["ops"] + stats["casts"]))
             ctx.floor("R12.5", "helper bodies in the weight's data slice", len(visited), 2)
-    ctx.floor("R12.5", "arithmetic and cast steps in the weight's data slice", n5, 5)
+    ctx.floor("R12.5", "arithmetic and cast steps in the weight's data slice", n5, 4)
     # ------------------------------------------------------------------ R12.3
     n3 = 0
     # slot: the per-group rate field = the f32 field of a crate-local struct that an f32-returning method of a sampler hands back (and
@@ -395,7 +395,7 @@ def run(ctx):
                         ctx.check(good, "R12.3", fnkey(b) + "#stored-rate-clamped@%d" % n3, loc(b, i),
                                   "a congressional sample rate is stored without being the constant 1.0 or clamped by min(1.0): rates above 1 "
                                   "would yield weights below 1 (counts rounded to 0)")
-    ctx.floor("R12.3", "stores to a group's sample_rate", n3, 4)
+    ctx.floor("R12.3", "stores to a group's sample_rate", n3, 3)
     # ------------------------------------------------------------------ R12.4 no group keeps a stale rate across an update
     nl = 0
     for adt in gs:
